@@ -20,6 +20,9 @@ type COp struct {
 	Op  string `json:"op"`
 	V   int64  `json:"v,omitempty"`   // send: the item number
 	Lit string `json:"lit,omitempty"` // send: spelling kind of the literal: int | float | str
+	// Bare: (last operation only, send/close on the closed channel) not wrapped in
+	// try/catch: the script must end with an error value returned to the host.
+	Bare bool `json:"bare,omitempty"`
 }
 
 // ClosedCase is a straight-line program over one channel that never blocks.
@@ -57,7 +60,7 @@ func genClosed(t *rapid.T) ClosedCase {
 		lits = []string{"int", "float", "str"}
 	}
 	n := rapid.IntRange(1, 12).Draw(t, "nops")
-	qlen, closed := 0, false
+	qlen, closed, alreadyClosed := 0, false, false
 	next := int64(-2)
 	for i := 0; i < n; i++ {
 		var cand []string
@@ -90,6 +93,12 @@ func genClosed(t *rapid.T) ClosedCase {
 		case "close":
 			closed = true
 		}
+		if closed && i == n-1 && (op.Op == "send" || (op.Op == "close" && i > 0 && alreadyClosed)) {
+			op.Bare = rapid.IntRange(0, 1).Draw(t, "bare") == 0
+		}
+		if op.Op == "close" {
+			alreadyClosed = true
+		}
 		c.Ops = append(c.Ops, op)
 	}
 	return c
@@ -99,6 +108,16 @@ func renderClosed(c ClosedCase) string {
 	var b strings.Builder
 	fmt.Fprintf(&b, "c = %s\nobs = []\n", makeChan(c.Ch, len(c.Ops)%2 == 0))
 	for i, op := range c.Ops {
+		if op.Bare {
+			b.WriteString("out(obs)\n")
+			if op.Op == "send" {
+				lit, _ := closedLit(op)
+				fmt.Fprintf(&b, "c <- %s\n", lit)
+			} else {
+				b.WriteString("close(c)\n")
+			}
+			continue
+		}
 		switch op.Op {
 		case "send":
 			lit, _ := closedLit(op)
@@ -120,6 +139,11 @@ func renderClosed(c ClosedCase) string {
 // modelClosed replays the operations on a FIFO with a closed flag. ok=false if
 // an operation would block or is outside the domain.
 func modelClosed(c ClosedCase) (want []mv, labels []string, nontrivial bool, ok bool) {
+	for i, op := range c.Ops {
+		if op.Bare && (i != len(c.Ops)-1 || !oneOf(op.Op, "send", "close")) {
+			return nil, nil, false, false
+		}
+	}
 	if c.Ch.Buf < 0 || c.Ch.Buf > 3 || !oneOf(c.Ch.Type, chanTypes...) || len(c.Ops) > 40 {
 		return nil, nil, false, false
 	}
@@ -135,10 +159,17 @@ func modelClosed(c ClosedCase) (want []mv, labels []string, nontrivial bool, ok 
 			if _, defined := convKind(v.k, c.Ch.Type); !defined {
 				return nil, nil, false, false
 			}
+			if op.Bare && !closed {
+				return nil, nil, false, false
+			}
 			if closed {
+				nontrivial = true
+				if op.Bare {
+					labels = append(labels, "send-on-closed-uncaught")
+					continue
+				}
 				want = append(want, mv{k: 'i', i: 1})
 				labels = append(labels, "send-on-closed")
-				nontrivial = true
 				continue
 			}
 			if len(q) >= c.Ch.Buf {
@@ -148,10 +179,17 @@ func modelClosed(c ClosedCase) (want []mv, labels []string, nontrivial bool, ok 
 			want = append(want, mv{k: 'i', i: 0})
 			labels = append(labels, "send")
 		case "close":
+			if op.Bare && !closed {
+				return nil, nil, false, false
+			}
 			if closed {
+				nontrivial = true
+				if op.Bare {
+					labels = append(labels, "close-of-closed-uncaught")
+					continue
+				}
 				want = append(want, mv{k: 'i', i: 1})
 				labels = append(labels, "close-of-closed")
-				nontrivial = true
 			} else {
 				want = append(want, mv{k: 'i', i: 0})
 				labels = append(labels, "close")
@@ -228,12 +266,25 @@ func oracleClosed(c ClosedCase, o *h.Obs) *h.Fail {
 		return h.Failf("C16|runaway-loop|closed", "for-in over the closed channel ran more iterations than items were buffered\nsource:\n%s", src)
 	case r.stuck != "":
 		return h.Failf("C16|stuck|closed", "a straight-line program whose operations never block in the model did not finish (%s)\nsource:\n%s", r.stuck, src)
-	case r.err != "":
+	}
+	bare := len(c.Ops) > 0 && c.Ops[len(c.Ops)-1].Bare
+	result := r.value
+	if bare {
+		// the uncaught send/close must surface as the error value of the run
+		if r.err == "" {
+			return h.Failf("C16|closed-missing-error|"+c.Ops[len(c.Ops)-1].Op, "the last statement (%s on a closed channel, not inside try) did not make the run return an error; result %v\nsource:\n%s", c.Ops[len(c.Ops)-1].Op, r.value, src)
+		}
+		if len(r.outs) != 1 {
+			return h.Failf("C16|result-shape|closed", "source:\n%s\nout(obs) called %d times", src, len(r.outs))
+		}
+		result = r.outs[0]
+		labels = labels[:len(labels)-1]
+	} else if r.err != "" {
 		return h.Failf("C16|unexpected-error|closed|"+normMsg(r.err), "source:\n%s\nerror: %s", src, r.err)
 	}
-	obs, isList := r.value.([]interface{})
+	obs, isList := result.([]interface{})
 	if !isList {
-		return h.Failf("C16|result-shape|closed", "source:\n%s\nresult %T %v", src, r.value, r.value)
+		return h.Failf("C16|result-shape|closed", "source:\n%s\nresult %T %v", src, result, result)
 	}
 	for i := 0; i < len(want) && i < len(obs); i++ {
 		if g := fromGo(obs[i]); !g.eq(want[i]) {
